@@ -35,6 +35,10 @@ func NewNetConnectionServerCommunicator(server *dns.Server) (*NetConnectionServe
 	c := &NetConnectionServerCommunicator{
 		server: server,
 	}
+	// Every server answers through a mux of its own. The package-level dns.HandleFunc registers with the one mux
+	// that all servers of the process share: with two DNS endpoints, the one started last answered the queries of both.
+	mux := dns.NewServeMux()
+	server.Handler = mux
 	err := make(chan error, 0)
 
 	go func() {
@@ -48,7 +52,7 @@ func NewNetConnectionServerCommunicator(server *dns.Server) (*NetConnectionServe
 		// continue
 	}
 
-	dns.HandleFunc(".", c.handleRequest)
+	mux.HandleFunc(".", c.handleRequest)
 	return c, nil
 
 }
